@@ -388,6 +388,19 @@ def run_case(case):
             v2 = float(getattr(fm, fn)(d["y"], d["p"], sensitive_features=a2, sample_weight=d["w"]))
             if not (abs(v1 - v2) <= 1e-12 or (math.isnan(v1) and math.isnan(v2))):
                 V.append(viol("C12:bijection:%s" % fn, "%s changes from %r to %r when group labels are renamed" % (fn, v1, v2)))
+        # control-feature levels renamed by a bijection onto levels that include falsy values (0, "")
+        for tgt_c in ([0, 1], ["", "z"], [False, True]):
+            cmap = {lv: tgt_c[i] for i, lv in enumerate(sorted(set(d["c"])))}
+            c2 = [cmap[v] for v in d["c"]]
+            hh = np.array([0.25 + 0.125 * i for i in range(len(d["y"]))])
+            for mname in ("DemographicParity", "EqualizedOdds"):
+                out["evals"] += 2
+                ga = _gam_c(red, mname, d, d["c"], hh)
+                gb = _gam_c(red, mname, d, c2, hh)
+                ren = {(s_, _ren_event(e, cmap), g): v for (s_, e, g), v in ga.items()}
+                if set(ren) != set(gb) or any(abs(ren[k] - gb[k]) > 1e-12 for k in ren):
+                    V.append(viol("C12:bijection:control-levels", "%s with control levels renamed %r: gamma index/values are not the renamed ones: %r vs expected %r" % (
+                        mname, cmap, sorted(map(str, gb))[:4], sorted(map(str, ren))[:4])))
         h = np.array([0.25 + 0.125 * i for i in range(len(d["y"]))])
         g1 = _gam(red, d, d["a"], h)
         g2 = _gam(red, d, a2, h)
@@ -396,6 +409,19 @@ def run_case(case):
             V.append(viol("C12:bijection:moment", "EqualizedOdds gamma after renaming is not the renamed gamma: %r vs %r" % (sorted(g2.items())[:3], sorted(ren.items())[:3])))
     out["classes"] = sorted(out["classes"])
     return out
+
+
+def _gam_c(red, mname, d, c, h):
+    m = getattr(red, mname)()
+    m.load_data(np.zeros((len(c), 1)), np.array(d["y"]), sensitive_features=np.array(d["a"]), control_features=np.array(c))
+    return {tuple(i): float(v) for i, v in m.gamma(lambda X_: h).items()}
+
+
+def _ren_event(e, cmap):
+    if not e.startswith("control="):
+        return e
+    lv, rest = e[len("control="):].split(",", 1)
+    return "control=%s,%s" % ({str(k): v for k, v in cmap.items()}[lv], rest)
 
 
 def _gam(red, d, a, h):
